@@ -65,15 +65,99 @@ type c18Root struct {
 	canonical bool
 }
 
-// c18VerifyReads opens a historical reader for every root and compares every read with the reference.
-// indexed: the index is complete (liveness is only demanded then).
-func c18VerifyReads(r *mc.R, in *c17Inst, roots []c18Root, indexed bool, stage string) error {
+// c18Old is a historical state reader object that is kept alive while the chain moves on. Its stateHistoryReader
+// caches one index reader per key that was looked up (also for keys without any index entry yet).
+type c18Old struct {
+	hr       *HistoricalStateReader
+	root     *c18Root
+	openedAt string
+	epoch    int // number of rollbacks that had happened when it was opened
+}
+
+// c18Run is the state of one checked case.
+type c18Run struct {
+	r     *mc.R
+	in    *c17Inst
+	all   []*c18Root
+	known map[common.Hash]*c18Root
+	olds  []*c18Old
+	epoch int
+	// wrong values served by a long-lived reader that survived a rollback are collected separately (they are reported
+	// under their own case key "check":"old-reader-across-rollback")
+	abandoned error
+}
+
+func (run *c18Run) record() {
+	in := run.in
+	for i := range in.roots {
+		if run.known[in.roots[i]] == nil {
+			w := in.worlds[i]
+			t := &c18Root{root: in.roots[i], world: &w, id: i}
+			run.known[in.roots[i]] = t
+			run.all = append(run.all, t)
+		}
+	}
+	canonical := map[common.Hash]bool{}
+	for _, root := range in.roots {
+		canonical[root] = true
+	}
+	for _, t := range run.all {
+		t.canonical = t.world != nil && canonical[t.root]
+	}
+}
+
+// verifyOld re-reads every key through every reader object opened at an earlier stage.
+func (run *c18Run) verifyOld(indexed bool, stage string) error {
+	db := run.in.db
+	diskID := db.tree.bottom().stateID()
+	tail, err := db.stateFreezer.Tail(rawdb.DefaultHistoryGroup)
+	if err != nil {
+		return err
+	}
+	for _, o := range run.olds {
+		t := o.root
+		what := fmt.Sprintf("%s: long-lived state reader of state %d opened %s (canonical=%v, disk layer %d, history tail %d, rollbacks since opened %d)",
+			stage, t.id, o.openedAt, t.canonical, diskID, tail, run.epoch-o.epoch)
+		refused, wrong := c18ReadState(o.hr, t.world)
+		if wrong != nil {
+			if o.epoch != run.epoch {
+				// the reader object survived a rollback below the disk layer (its root may or may not still be canonical)
+				if run.abandoned == nil {
+					run.abandoned = fmt.Errorf("%s: %v", what, wrong)
+				}
+				run.r.Outcome("old-reader:wrong-value-after-rollback")
+				continue
+			}
+			return fmt.Errorf("%s: %v", what, wrong)
+		}
+		retained := t.canonical && uint64(t.id) < diskID && uint64(t.id) >= tail
+		switch {
+		case refused == nil:
+			run.r.Outcome("old-reader:read-ok")
+		case retained && indexed && o.epoch == run.epoch:
+			// (after a rollback the per-key index readers are deliberately marked stale, a refusal is accepted then)
+			return fmt.Errorf("%s: refuses although its state is still retained, canonical and indexed: %v", what, refused)
+		default:
+			run.r.Outcome("old-reader:refused")
+		}
+	}
+	return nil
+}
+
+// verify re-reads through all long-lived readers, then opens a fresh historical reader for every root and compares
+// every read with the reference. indexed: the index is complete (liveness is only demanded then). nodes: also walk
+// the tries through HistoricNodeReader. keep: retain the freshly opened state readers as long-lived readers.
+func (run *c18Run) verify(indexed, nodes, keep bool, stage string) error {
+	if err := run.verifyOld(indexed, stage); err != nil {
+		return err
+	}
+	r, in := run.r, run.in
 	db := in.db
 	diskID := db.tree.bottom().stateID()
 	for _, typ := range []string{"state", "trienode"} {
 		var freezer ethdb.AncientStore = db.stateFreezer
 		if typ == "trienode" {
-			if db.trienodeFreezer == nil {
+			if db.trienodeFreezer == nil || !nodes {
 				continue
 			}
 			freezer = db.trienodeFreezer
@@ -82,7 +166,7 @@ func c18VerifyReads(r *mc.R, in *c17Inst, roots []c18Root, indexed bool, stage s
 		if err != nil {
 			return err
 		}
-		for _, t := range roots {
+		for _, t := range run.all {
 			retained := t.canonical && uint64(t.id) < diskID && uint64(t.id) >= tail
 			mustRefuse := t.world == nil || !t.canonical || (uint64(t.id) < tail)
 			what := fmt.Sprintf("%s: %s reader of state %d (canonical=%v, disk layer %d, history tail %d)", stage, typ, t.id, t.canonical, diskID, tail)
@@ -98,6 +182,9 @@ func c18VerifyReads(r *mc.R, in *c17Inst, roots []c18Root, indexed bool, stage s
 					readErr, err = c18ReadState(hr, t.world)
 					if err != nil {
 						return fmt.Errorf("%s: %v", what, err)
+					}
+					if keep {
+						run.olds = append(run.olds, &c18Old{hr: hr, root: t, openedAt: stage, epoch: run.epoch})
 					}
 				}
 			} else {
@@ -199,38 +286,80 @@ func c18ReadTries(db *Database, root common.Hash, w *c17World) (error, error) {
 	return nil, nil
 }
 
-func c18Check(r *mc.R, c c18Case) error {
+// c18Sub is the case key under which wrong values served by a long-lived reader that survived a rollback are reported.
+type c18Sub struct {
+	Cfg      c17Cfg   `json:"cfg"`
+	Ops      []string `json:"ops"`
+	Rollback int      `json:"rollback"`
+	Check    string   `json:"check"`
+}
+
+// c18Both runs one case and reports its two classes of violations under their own keys.
+//
+// Only the dedicated cases (reportStale) assert the second class: on the unchanged tree a reader object that survives
+// a rollback below the disk layer followed by re-extension serves wrong values in most rollback cases (the staleness
+// mark `limit > lastID` of indexReaderWithLimitTag only holds until the chain has grown back to the old index
+// position), and the result file keeps 20 violations only: thousands of instances of that one defect would hide
+// every other violation. In the grid the class is counted in the outcome histogram
+// ("old-reader:wrong-value-after-rollback") and everything else stays asserted.
+func c18Both(r *mc.R, c c18Case, reportStale bool) {
+	var (
+		done           bool
+		mainErr, abErr error
+	)
+	run := func() {
+		if !done {
+			mainErr, abErr = c18Check(r, c)
+			done = true
+		}
+	}
+	r.Case(c, func() error { run(); return mainErr })
+	if c.Rollback >= 0 && reportStale {
+		r.Case(c18Sub{c.Cfg, c.Ops, c.Rollback, "old-reader-across-rollback"}, func() error { run(); return abErr })
+	}
+}
+
+// c18Check executes one case step by step. Readers opened after every step stay alive and are re-read after every
+// later step. It returns the first violation and, separately, the first wrong value served by a long-lived reader
+// that was opened before the rollback.
+func c18Check(r *mc.R, c c18Case) (error, error) {
 	progressAll := r.Thorough() // quick tier: the index-progress sweep only for histories without rollback
 	in := c17NewInst(c.Cfg)
 	defer in.close()
 	if err := c18WaitInited(in); err != nil {
-		return err
+		return err, nil
 	}
-	if ok, err := in.run(c.Ops); err != nil || !ok {
-		if !ok {
-			return errors.New("harness: history contains a disabled delta")
-		}
-		return err
-	}
-	var all []c18Root
-	known := map[common.Hash]bool{}
-	record := func(canonicalUpTo int) {
-		for i := range in.roots {
-			if !known[in.roots[i]] {
-				known[in.roots[i]] = true
-				w := in.worlds[i]
-				all = append(all, c18Root{root: in.roots[i], world: &w, id: i})
+	run := &c18Run{r: r, in: in, known: map[common.Hash]*c18Root{}}
+	run.all = append(run.all, &c18Root{root: common.HexToHash("0xdeadbeef"), id: -1}, &c18Root{root: common.Hash{}, id: -1})
+	// step executes operations one by one; after each of them all old readers are re-read and fresh readers are
+	// opened for every root (trie walks only at the end of a phase).
+	step := func(ops []string, phase string) error {
+		for k, op := range ops {
+			if ok, err := in.run([]string{op}); err != nil || !ok {
+				if !ok {
+					return errors.New("harness: history contains a disabled delta")
+				}
+				return fmt.Errorf("%s, op %d (%s): %v", phase, k, op, err)
+			}
+			run.record()
+			last := k == len(ops)-1
+			if err := run.verify(true, last, true, fmt.Sprintf("%s after op %d (%s)", phase, k, op)); err != nil {
+				return err
 			}
 		}
+		return nil
 	}
-	record(0)
+	if err := step(c.Ops, "history"); err != nil {
+		return err, run.abandoned
+	}
 	if c.Rollback >= 0 {
 		if !in.db.Recoverable(in.roots[c.Rollback]) {
-			return errors.New("harness: rollback target is not recoverable")
+			return errors.New("harness: rollback target is not recoverable"), nil
 		}
 		if err := in.db.Recover(in.roots[c.Rollback]); err != nil {
-			return fmt.Errorf("Recover(state %d): %v", c.Rollback, err)
+			return fmt.Errorf("Recover(state %d): %v", c.Rollback, err), nil
 		}
+		run.epoch++
 		var origNext string
 		n := 0
 		for _, op := range c.Ops {
@@ -242,26 +371,17 @@ func c18Check(r *mc.R, c c18Case) error {
 			}
 		}
 		in.roots, in.worlds = in.roots[:c.Rollback+1], in.worlds[:c.Rollback+1]
+		run.record()
+		if err := run.verify(true, false, true, fmt.Sprintf("after the rollback to state %d", c.Rollback)); err != nil {
+			return err, run.abandoned
+		}
 		forkOps := []string{"B+", c17Commit, "A+", c17Commit}
 		if origNext == "B+" {
 			forkOps = []string{"A+", c17Commit, "B+", c17Commit}
 		}
-		if _, err := in.run(forkOps); err != nil {
-			return fmt.Errorf("fork after rollback: %v", err)
+		if err := step(forkOps, "fork after rollback"); err != nil {
+			return err, run.abandoned
 		}
-		record(0)
-	}
-	canonical := map[common.Hash]bool{}
-	for _, root := range in.roots {
-		canonical[root] = true
-	}
-	for i := range all {
-		all[i].canonical = canonical[all[i].root]
-	}
-	all = append(all, c18Root{root: common.HexToHash("0xdeadbeef"), id: -1}, c18Root{root: common.Hash{}, id: -1})
-
-	if err := c18VerifyReads(r, in, all, true, "after the history"); err != nil {
-		return err
 	}
 	// index pruner at the current history tail (the background pruner only acts after 90000 pruned histories)
 	pruned := false
@@ -271,7 +391,7 @@ func c18Check(r *mc.R, c c18Case) error {
 		}
 		tail, err := ix.freezer.Tail(rawdb.DefaultHistoryGroup)
 		if err != nil {
-			return err
+			return err, run.abandoned
 		}
 		if tail == 0 {
 			continue
@@ -279,12 +399,12 @@ func c18Check(r *mc.R, c c18Case) error {
 		r.Outcome("index-pruner-run")
 		pruned = true
 		if err := ix.pruner.process(tail + 1); err != nil {
-			return fmt.Errorf("index pruner: %v", err)
+			return fmt.Errorf("index pruner: %v", err), run.abandoned
 		}
 	}
 	if pruned {
-		if err := c18VerifyReads(r, in, all, true, "after index pruning"); err != nil {
-			return err
+		if err := run.verify(true, true, true, "after index pruning"); err != nil {
+			return err, run.abandoned
 		}
 	}
 	// every index progress value: un-index the newest histories one by one, then index them again
@@ -302,22 +422,22 @@ func c18Check(r *mc.R, c c18Case) error {
 		}
 		for p := head; p > low; p-- {
 			if err := unindexSingle(p, ix.disk, ix.freezer, ix.typ); err != nil {
-				return fmt.Errorf("unindexSingle(%d): %v", p, err)
+				return fmt.Errorf("unindexSingle(%d): %v", p, err), run.abandoned
 			}
-			if err := c18VerifyReads(r, in, all, false, fmt.Sprintf("with the %s index shortened to %d", ix.typ, p-1)); err != nil {
-				return err
+			if err := run.verify(false, true, false, fmt.Sprintf("with the %s index shortened to %d", ix.typ, p-1)); err != nil {
+				return err, run.abandoned
 			}
 		}
 		for p := low + 1; p <= head; p++ {
 			if err := indexSingle(p, ix.disk, ix.freezer, ix.typ); err != nil {
-				return fmt.Errorf("indexSingle(%d): %v", p, err)
+				return fmt.Errorf("indexSingle(%d): %v", p, err), run.abandoned
 			}
 		}
-		if err := c18VerifyReads(r, in, all, true, fmt.Sprintf("after re-indexing %s histories", ix.typ)); err != nil {
-			return err
+		if err := run.verify(true, true, false, fmt.Sprintf("after re-indexing %s histories", ix.typ)); err != nil {
+			return err, run.abandoned
 		}
 	}
-	return nil
+	return nil, run.abandoned
 }
 
 func TestVerif_C18(t *testing.T) {
@@ -379,10 +499,13 @@ func TestVerif_C18(t *testing.T) {
 		for _, cfg := range cfgs {
 			cfg.RealIniter = true
 			special = append(special, c18Case{cfg, []string{"A+", c17Commit}, 0}, c18Case{cfg, []string{"A.k0=1", "A.k0=2", "A!", c17Commit}, -1})
+			// long-lived readers across a rollback + different fork: asserted on the shortest history per configuration
+			cfg.RealIniter = false
+			special = append(special, c18Case{cfg, []string{"A+", "A+", c17Commit}, 1})
 		}
 		r.Parallel(len(special), func(i int) {
 			c := special[i]
-			r.Case(c, func() error { return c18Check(r, c) })
+			c18Both(r, c, true)
 		})
 		r.Parallel(len(hists), func(i int) {
 			// number of transitions and position of the disk layer (maxDiffLayers=1)
@@ -410,7 +533,7 @@ func TestVerif_C18(t *testing.T) {
 						continue
 					}
 					c := c18Case{cfg, hists[i], rb}
-					r.Case(c, func() error { return c18Check(r, c) })
+					c18Both(r, c, false)
 					r.DistinctHash(mc.Hash64(fmt.Sprint(c)))
 				}
 			}
